@@ -27,10 +27,15 @@ func ToLib(m model.Message) (*message.IKEMessage, error) {
 	return &message.IKEMessage{IKEHeader: ToLibHeader(m.Header), Payloads: ps}, nil
 }
 
+// ToLibHeader builds the header object. NextPayload and PayloadBytes are bookkeeping the encoder recomputes; they are
+// deliberately filled with stale values (a function of the header, so runs stay reproducible), as they are on a header
+// object that was decoded or encoded before.
 func ToLibHeader(h model.Header) *message.IKEHeader {
+	stale := uint8(h.ISPI>>3) ^ uint8(h.MsgID)
 	return &message.IKEHeader{
 		InitiatorSPI: h.ISPI, ResponderSPI: h.RSPI, MajorVersion: h.Major, MinorVersion: h.Minor,
 		ExchangeType: h.Exchange, Flags: h.Flags, MessageID: h.MsgID,
+		NextPayload: stale, PayloadBytes: []byte{stale, 0xde, 0xad},
 	}
 }
 
@@ -156,13 +161,20 @@ func ToLibEAP(e model.EAP) (*eap.EAP, error) {
 		out.EapTypeData = &eap.EapExpanded{VendorID: e.VendorID, VendorType: e.VendorType, VendorData: cp(e.Data)}
 	case model.EAka:
 		a := eap.NewEapAkaPrime(eap.EapAkaSubtype(e.Sub))
-		for _, at := range e.Attrs {
+		for i, at := range e.Attrs {
 			v := at.Value
 			if v == nil {
 				v = []byte{}
 			}
 			if err := a.SetAttr(eap.EapAkaPrimeAttrType(at.Type), append([]byte(nil), v...)); err != nil {
 				return nil, fmt.Errorf("bridge: SetAttr(%d, %d octets): %w", at.Type, len(v), err)
+			}
+			// a message may be encoded while it is still being put together (e.g. to compute a MAC): the intermediate
+			// encoding must not leave anything behind that the final encoding depends on
+			if i+1 < len(e.Attrs) {
+				if _, err := a.Marshal(); err != nil {
+					return nil, fmt.Errorf("bridge: intermediate Marshal: %w", err)
+				}
 			}
 		}
 		out.EapTypeData = a
